@@ -261,12 +261,15 @@ extern size_t vc_k;
 #define VC_ADV_LOOP_SCAN_INV(p, scan_flags, e_flags, proceed, orig_od, orig_ad)                     \
     ((((e_flags) == VC_ADV_VALUE) ==>                                                               \
       ((p)->depth >= (orig_od) && ((((scan_flags) & VC_ADV_VALUE) == 0) ==> (p)->depth == (orig_od)))) && \
-     (((e_flags) == VC_ADV_LEAVE_ARRAY) ==>                                                         \
+     /* leave_array: meaningful only when the scan starts inside an array (orig_ad >= 1); started elsewhere  \
+      * the flag is never cleared (the matching ARRAY_END is a FORMAT error), so the scan cannot answer true */ \
+     ((((e_flags) == VC_ADV_LEAVE_ARRAY) && (orig_ad) == 0) ==> (((scan_flags) & VC_ADV_LEAVE_ARRAY) != 0)) && \
+     ((((e_flags) == VC_ADV_LEAVE_ARRAY) && (orig_ad) >= 1) ==>                                     \
       ((p)->depth >= (orig_od) &&                                                                   \
        ((((scan_flags) & VC_ADV_LEAVE_ARRAY) != 0) ==>                                              \
-        ((p)->depth > (orig_od) || (p)->state[VC_IDX_OF(orig_od)].array_depth >= (orig_ad))) &&     \
+        (p)->state[VC_IDX_OF(orig_od)].array_depth >= (orig_ad)) &&                                 \
        ((((scan_flags) & VC_ADV_LEAVE_ARRAY) == 0) ==>                                              \
-        ((p)->depth == (orig_od) && (orig_ad) >= 1 &&                                               \
+        ((p)->depth == (orig_od) &&                                                                 \
          (p)->state[VC_IDX_OF(orig_od)].array_depth == (orig_ad) - 1 && !(proceed))))) &&           \
      (((e_flags) == VC_ADV_LEAVE_OBJECT) ==>                                                        \
       ((((scan_flags) & VC_ADV_LEAVE_OBJECT) != 0) ? ((p)->depth >= (orig_od))                      \
